@@ -19,7 +19,7 @@ from ..model import refcsv
 PROPERTY = 'C10'
 LEVEL = 'exploration'
 
-DELIMS = [',', ';', '\t', '|', ' ', '::', 'ab', ', ', '→']
+DELIMS = [',', ';', '\t', '|', ' ', '::', 'ab', ', ', '→', '\\', '^', ']', '-']      # the last four mean something inside a regular-expression character class
 LINE_SEPS = ['\n', '\r\n', '\r']
 ENCODINGS = [None, 'utf-8', 'latin-1']
 
